@@ -16,7 +16,10 @@ from ahrs.common import orientation as ori
 
 TOL = 1e-12
 # (q0, u): rows are q0 * u^k; step angle 2 atan(|v|/w) must satisfy (MaxGap+1) * angle < pi
-SUBGROUPS = [((1, 0, 0, 0), (6, 1, 0, 0)), ((2, -1, 3, 1), (5, 1, -1, 1)), ((1, 2, -2, 0), (12, 1, 2, 2)), ((0, 1, 0, 0), (9, 0, -2, 1))]
+SUBGROUPS = [((1, 0, 0, 0), (6, 1, 0, 0)), ((2, -1, 3, 1), (5, 1, -1, 1)), ((1, 2, -2, 0), (12, 1, 2, 2)), ((0, 1, 0, 0), (9, 0, -2, 1)),
+             # around (1,1,1,1)/2, the 120-degree rotation about the body diagonal (all four components of equal size: a sign flip there
+             # changes every component by exactly 1), in slow rotation about that diagonal, and at rest
+             ((1, 1, 1, 1), (60, 1, 1, 1)), ((1, 1, 1, 1), (1, 0, 0, 0)), ((30, 29, 30, 31), (80, -1, -1, -1))]
 
 
 def rows_of(sub, n):
